@@ -227,6 +227,15 @@ func runC05(c *core.Case) {
 		}
 	}
 
+	// hostile list histories (rare, directed): big lists with one planted overlap, confusable consecutive lists
+	if r.P(0.004) {
+		c05BigLists(c, square)
+		return
+	}
+	if r.P(0.01) {
+		c05Confusable(c)
+		return
+	}
 	// list forms (one case in four)
 	if r.Intn(4) != 0 {
 		return
@@ -305,6 +314,51 @@ func runC05(c *core.Case) {
 		c.Fail("input-modified", nil, "overlap check modified an input slice")
 		return
 	}
+	// slice reuse: the caller overwrites an interior element of the same slice in place and asks again
+	if len(l1) >= 3 && len(l2) >= 1 {
+		k := 1 + r.Intn(len(l1)-2)
+		repl, _ := c05Related(r, l2[r.Intn(len(l2))], square)
+		if r.Bool() {
+			repl = genID(r, 0, 35, 0, 35)
+			if square {
+				repl = l1[k]
+			}
+		}
+		if !square || inWindow(repl) {
+			m1 := append([]ref.ID{}, l1...)
+			m1[k] = repl
+			want2 := false
+			for _, x := range m1 {
+				for _, y := range l2 {
+					if ref.Overlap(x, y) {
+						want2 = true
+					}
+				}
+			}
+			e1[k] = repl.Ext()
+			g2, er2 := detector.CheckExtendedSpatialIdsArrayOverlap(e1, e2)
+			c.Call()
+			if er2 != nil || g2 != want2 {
+				c.Fail("overlap-array-after-in-place-edit", nil, "CheckExtendedSpatialIdsArrayOverlap(%v,%v) after element %d of the same slice was overwritten in place = (%v,%v), want %v", e1, e2, k, g2, er2, want2)
+				return
+			}
+			if square {
+				s1, s2 := ref.Spatials(l1), ref.Spatials(l2)
+				g0, er0 := detector.CheckSpatialIdsArrayOverlap(s1, s2)
+				s1[k] = repl.Spatial()
+				g3, er3 := detector.CheckSpatialIdsArrayOverlap(s1, s2)
+				c.Calls(2)
+				if er0 != nil || g0 != wantArr || er3 != nil || g3 != want2 {
+					c.Fail("overlap-spatial-array-after-in-place-edit", nil, "CheckSpatialIdsArrayOverlap on a reused slice: before the in-place edit (%v,%v) want %v; after overwriting element %d (%v,%v) want %v", g0, er0, wantArr, k, g3, er3, want2)
+					return
+				}
+			}
+			c.Tag("in-place-edit")
+			l1 = m1
+			wantArr = want2
+			ga = g2
+		}
+	}
 	if square {
 		s1, s2 := ref.Spatials(l1), ref.Spatials(l2)
 		gs, es := detector.CheckSpatialIdsArrayOverlap(s1, s2)
@@ -327,6 +381,138 @@ func runC05(c *core.Case) {
 		// both implementations agree on h == v inputs
 		if gs != ga {
 			c.Fail("overlap-implementations-disagree", nil, "tree-based form %v, zoom-change-based form %v on the same h==v lists", gs, ga)
+		}
+	}
+}
+
+// c05BigLists: two long lists of pairwise disjoint voxels (>= 4096 pairs) with exactly one overlapping pair planted
+// at a random position (the tail of the first list is favoured: chunked/parallel implementations drop remainders).
+func c05BigLists(c *core.Case, square bool) {
+	r := c.R
+	n1, n2 := 60+r.Intn(12), 70+r.Intn(12)
+	z := r.Range(12, 30)
+	mk := func() ref.ID {
+		a := genID(r, z, z, z, z)
+		a.F = clampI(a.F, -pow2(z-1), pow2(z-1)-1)
+		return a
+	}
+	var l1, l2 []ref.ID
+	for len(l1) < n1 {
+		l1 = append(l1, mk())
+	}
+	for len(l2) < n2 {
+		l2 = append(l2, mk())
+	}
+	i := r.Intn(n1)
+	if r.P(0.6) {
+		i = n1 - 1 - r.Intn(8)
+	}
+	j := r.Intn(n2)
+	plant := r.P(0.7)
+	if plant {
+		l2[j] = descendant(r, l1[i], clampI(z+r.Range(0, 2), 0, 35), clampI(z+r.Range(0, 2), 0, 35))
+		if square {
+			l2[j] = descendant(r, l1[i], clampI(z+1, 0, 35), clampI(z+1, 0, 35))
+		}
+	}
+	want := false
+	for _, x := range l1 {
+		for _, y := range l2 {
+			if ref.Overlap(x, y) {
+				want = true
+			}
+		}
+	}
+	c.Tag("big-lists")
+	c.NonTrivial()
+	e1, e2 := ref.Exts(l1), ref.Exts(l2)
+	keyStrings(c, e1)
+	keyStrings(c, e2)
+	c.Desc = func() any {
+		return map[string]any{"scenario": "big lists", "len1": n1, "len2": n2, "planted_pair": []int{i, j}, "planted": plant, "expected": want}
+	}
+	for _, sw := range []bool{false, true} {
+		a, b := e1, e2
+		if sw {
+			a, b = b, a
+		}
+		g, err := detector.CheckExtendedSpatialIdsArrayOverlap(a, b)
+		c.Call()
+		if err != nil || g != want {
+			c.Fail("overlap-array-big-lists", nil, "CheckExtendedSpatialIdsArrayOverlap on lists of %d and %d IDs (swapped %v) with the only overlapping pair at positions (%d,%d): (%v,%v), want %v", n1, n2, sw, i, j, g, err, want)
+			return
+		}
+	}
+	if square {
+		s1, s2 := ref.Spatials(l1), ref.Spatials(l2)
+		for _, sw := range []bool{false, true} {
+			a, b := s1, s2
+			if sw {
+				a, b = b, a
+			}
+			g, err := detector.CheckSpatialIdsArrayOverlap(a, b)
+			c.Call()
+			if err != nil || g != want {
+				c.Fail("overlap-spatial-array-big-lists", nil, "CheckSpatialIdsArrayOverlap on lists of %d and %d IDs (swapped %v), planted pair (%d,%d): (%v,%v), want %v", n1, n2, sw, i, j, g, err, want)
+				return
+			}
+		}
+	}
+}
+
+// c05Confusable: two different first-argument lists whose ID strings concatenate to the same text, used in two
+// consecutive calls (a cache keyed on the joined strings without separator confuses them).
+func c05Confusable(c *core.Case) {
+	r := c.R
+	z1 := r.Range(4, 9)
+	y1 := r.Range(0, pow2(z1)/10-1)
+	d := r.Range(1, 3)         // leading digit of the second ID's zoom (10..35)
+	z2 := d*10 + r.Range(0, 5) // two-digit zoom
+	zs := z2 % 10              // zoom left when the leading digit moves to the first ID
+	x1, f1 := r.Range(0, pow2(z1)-1), r.Range(-pow2(z1-1), pow2(z1-1)-1)
+	idx2 := r.Range(0, 0) // indices valid at both zooms
+	A := []ref.ID{{H: z1, X: x1, Y: y1, V: z1, F: f1}, {H: z2, X: idx2, Y: 0, V: z2, F: 0}}
+	B := []ref.ID{{H: z1, X: x1, Y: y1*10 + d, V: z1, F: f1}, {H: zs, X: idx2, Y: 0, V: zs, F: 0}}
+	if zs < 1 || !B[0].Valid() || !inWindow(B[1]) || !inWindow(A[0]) || !inWindow(A[1]) || !inWindow(B[0]) {
+		c.Inconclusive("confusable-shape-not-constructible")
+		return
+	}
+	sa, sb := ref.Spatials(A), ref.Spatials(B)
+	probe := []ref.ID{descendant(r, A[r.Intn(2)], 35, 35), descendant(r, B[r.Intn(2)], 35, 35)}
+	probe[0].F = clampI(probe[0].F, -pow2(34), pow2(34)-1)
+	probe[1].F = clampI(probe[1].F, -pow2(34), pow2(34)-1)
+	sp := ref.Spatials(probe)
+	want := func(l []ref.ID) bool {
+		for _, x := range l {
+			for _, y := range probe {
+				if ref.Overlap(x, y) {
+					return true
+				}
+			}
+		}
+		return false
+	}
+	c.Tag("confusable-consecutive-lists")
+	c.NonTrivial()
+	keyStrings(c, sa)
+	keyStrings(c, sb)
+	keyStrings(c, sp)
+	c.Desc = func() any {
+		return map[string]any{"scenario": "confusable consecutive lists", "A": sa, "B": sb, "probe": sp}
+	}
+	for k, l := range [][]string{sa, sb, sa} {
+		ids := [][]ref.ID{A, B, A}[k]
+		g, err := detector.CheckSpatialIdsArrayOverlap(l, sp)
+		c.Call()
+		if err != nil || g != want(ids) {
+			c.Fail("overlap-spatial-array-history", nil, "CheckSpatialIdsArrayOverlap(%v,%v) as call %d of the sequence A,B,A with A=%v B=%v: (%v,%v), want %v", l, sp, k+1, sa, sb, g, err, want(ids))
+			return
+		}
+		g2, err2 := detector.CheckSpatialIdsArrayOverlap(sp, l)
+		c.Call()
+		if err2 != nil || g2 != want(ids) {
+			c.Fail("overlap-spatial-array-history", nil, "CheckSpatialIdsArrayOverlap(%v,%v) (swapped) as call %d of A,B,A: (%v,%v), want %v", sp, l, k+1, g2, err2, want(ids))
+			return
 		}
 	}
 }
